@@ -19,6 +19,14 @@ Theorem c17_attempt_iff : forall g now,
 Proof. exact attempt_iff. Qed.
 Print Assumptions c17_attempt_iff.
 
+(* ... and nothing else creates attempts: an event that is not a subscriber arrival, an RTSP PLAY,
+   start_relay_pull or a tick leaves the attempt counters and the number of attempts unchanged *)
+Theorem c17_attempts_only_by_triggers : forall cf st e, is_trigger e = false ->
+  st_cnt (fst (fst (step fixed_tree cf st e))) = st_cnt st /\
+  length (st_atts (fst (fst (step fixed_tree cf st e)))) = length (st_atts st).
+Proof. exact (attempts_only_by_triggers fixed_tree). Qed.
+Print Assumptions c17_attempts_only_by_triggers.
+
 (* an attempt can only start while none is in flight and none is attached; starting marks the
    group as pulling, so a second start is impossible until the first attempt has ended *)
 Theorem c17_single_attempt_step : forall g now, snd (fst (pull_if_needed g now)) = true ->
